@@ -28,11 +28,18 @@ import (
 // over time (in tape order, with fake time passing in between); other providers for a
 // different service id come and go as noise; finally the stream is cancelled.
 //
+// Some providers are slow: their resolver stays busy until the driver lets it finish, so the
+// directive goes busy and idle again over time. The response stream exerts back-pressure:
+// Send is a scheduling point, so providers come and go while the server is blocked in it.
+//
 // Oracle: the response stream projected on exists/removed strictly alternates and starts
-// with exists; at every quiescent point the last exists/removed message says "exists" iff
-// at least one matching provider is registered; idle messages never repeat the same value
-// twice in a row. The component-ID round-trip clause of the property is a pure function
-// and is not decided here.
+// with exists; at every quiescent point (server not blocked in Send) the last
+// exists/removed message says "exists" iff at least one matching provider has produced its
+// value and is still registered, and the last idle message equals the idle state of the
+// directive (ground truth: an idle callback of the harness on the same directive instance);
+// idle messages never repeat the same value twice in a row. The component-ID round trip is
+// probed too, as a history (pairs of requests whose naive concatenations collide, encoded
+// one after the other in one process), although on the unchanged tree it is a pure function.
 type c36World struct {
 	s         *dsim.Sim
 	b         bus.Bus
@@ -48,6 +55,10 @@ type c36World struct {
 	sctx      context.Context
 	scan      context.CancelFunc
 	idleSince time.Duration
+	sending   int  // server goroutines inside Send
+	truthIdle bool // idle state of the directive as the bus reports it to the harness
+	truthRel  func()
+	rtN       int
 }
 
 type c36Prov struct {
@@ -55,6 +66,26 @@ type c36Prov struct {
 	service string
 	rel     func()
 	live    bool
+	slow    bool
+	release chan struct{} // closed by the driver: the slow resolver may finish
+	freed   bool
+	valued  bool // its value has been handed to the directive
+	w       *c36World
+}
+
+// c36SlowRes is a resolver that stays busy until the driver releases it.
+type c36SlowRes struct{ p *c36Prov }
+
+func (r *c36SlowRes) Resolve(ctx context.Context, h directive.ResolverHandler) error {
+	select {
+	case <-ctx.Done():
+		return ctx.Err()
+	case <-r.p.release:
+	}
+	if _, ok := h.AddValue(bifrost_rpc.LookupRpcServiceValue(r.p)); ok {
+		r.p.valued = true
+	}
+	return nil
 }
 
 func (p *c36Prov) GetControllerInfo() *controller.Info {
@@ -67,6 +98,10 @@ func (p *c36Prov) HandleDirective(ctx context.Context, di directive.Instance) ([
 	if !ok || d.LookupRpcServiceID() != p.service {
 		return nil, nil
 	}
+	if p.slow {
+		return directive.R(&c36SlowRes{p}, nil)
+	}
+	p.valued = true
 	return directive.R(bifrost_rpc.NewLookupRpcServiceResolver(p), nil)
 }
 func (p *c36Prov) InvokeMethod(serviceID, methodID string, strm srpc.Stream) (bool, error) {
@@ -92,6 +127,16 @@ func (s *c36Stream) Send(m *bifrost_rpc_access.LookupRpcServiceResponse) error {
 		return context.Canceled
 	}
 	w := s.w
+	w.sending++
+	st := w.s.Step
+	w.s.Yield("harness/stream-send", "")
+	if w.s.Step != st {
+		w.s.Count("fault:send-back-pressure")
+	}
+	w.sending--
+	if s.ctx.Err() != nil {
+		return context.Canceled
+	}
 	k := "I-"
 	switch {
 	case m.GetExists():
@@ -134,8 +179,8 @@ func init() {
 		Cfg:        dsim.Config{MaxChaosSteps: 60, MaxStableSteps: 2000, Horizon: 5 * time.Second},
 		Real:       []string{"rpc/access.AccessRpcServiceServer.LookupRpcService", "rpc.LookupRpcService directive", "controllerbus bus + directive controller (value add/remove, idle callbacks)"},
 		Stub:       []string{"the response stream is a harness object", "provider controllers are harness controllers resolving the directive with an inert invoker"},
-		FaultKinds: []string{"fault:provider-removed", "fault:noise-provider", "fault:stream-cancel", "fault:clock-jump"},
-		Notes:      []string{"only the availability clause is decided; the component-ID round trip is a pure function"},
+		FaultKinds: []string{"fault:provider-removed", "fault:noise-provider", "fault:slow-resolver", "fault:send-back-pressure", "fault:stream-cancel", "fault:clock-jump"},
+		Notes:      []string{"availability and idle clauses decided against the bus; the component-ID round trip is probed as a short history of encodings (a pure function on the unchanged tree)"},
 	})
 }
 
@@ -158,6 +203,15 @@ func (w *c36World) Setup(s *dsim.Sim) {
 	w.maxOps = 2 + s.Tape.Draw(12, "max-ops")
 	w.sctx, w.scan = context.WithCancel(w.ctx)
 	w.strm = &c36Stream{w: w, ctx: w.sctx}
+	// ground truth for the idle clause: the harness holds its own reference to the same
+	// (de-duplicated) directive instance and listens to its idle state
+	di, ref, err := b.AddDirective(bifrost_rpc.NewLookupRpcService("svc", ""), nil)
+	if err != nil {
+		panic(err)
+	}
+	relIdle := di.AddIdleCallback(func(isIdle bool, _ []error) { w.truthIdle = isIdle })
+	w.truthRel = func() { relIdle(); ref.Release() }
+	s.ArmFraction([]int{100, 60, 0}[s.Tape.Draw(3, "arm-pct")], []string{"harness/stream-send"})
 	srv := bifrost_rpc_access.NewAccessRpcServiceServer(b, false, nil)
 	go func() {
 		w.retErr = srv.LookupRpcService(&bifrost_rpc_access.LookupRpcServiceRequest{ServiceId: "svc"}, w.strm)
@@ -169,7 +223,7 @@ func (w *c36World) Setup(s *dsim.Sim) {
 func (w *c36World) liveMatching() int {
 	n := 0
 	for _, p := range w.provs {
-		if p.live && p.service == "svc" {
+		if p.live && p.service == "svc" && p.valued {
 			n++
 		}
 	}
@@ -193,10 +247,13 @@ func (w *c36World) Actions(s *dsim.Sim, add func(dsim.Action)) {
 	if nlive < 4 {
 		add(dsim.Action{Name: "3op:add-provider", Weight: 6, Fire: func() {
 			w.ops++
-			p := &c36Prov{id: len(w.provs), service: "svc", live: true}
+			p := &c36Prov{id: len(w.provs), service: "svc", live: true, w: w, release: make(chan struct{})}
 			if t.Bool(1, 4, "noise") {
 				p.service = "other"
 				s.Count("fault:noise-provider")
+			} else if t.Bool(1, 3, "slow") {
+				p.slow = true
+				s.Count("fault:slow-resolver")
 			}
 			rel, err := w.b.AddController(w.ctx, p, nil)
 			if err != nil {
@@ -219,6 +276,18 @@ func (w *c36World) Actions(s *dsim.Sim, add func(dsim.Action)) {
 			}})
 		}
 	}
+	for _, p := range w.provs {
+		p := p
+		if p.live && p.slow && !p.freed {
+			add(dsim.Action{Name: fmt.Sprintf("3op:finish-resolve:%d", p.id), Weight: 4, Fire: func() {
+				w.ops++
+				p.freed = true
+				close(p.release)
+				s.Logf("slow resolver of provider #%d may finish", p.id)
+			}})
+		}
+	}
+	add(dsim.Action{Name: "3op:component-id", Weight: 1, Fire: func() { w.ops++; w.roundTrip() }})
 	add(dsim.Action{Name: "5flt:cancel-stream", Weight: 1, Fault: true, Fire: func() {
 		w.ops++
 		s.Count("fault:stream-cancel")
@@ -227,14 +296,20 @@ func (w *c36World) Actions(s *dsim.Sim, add func(dsim.Action)) {
 }
 
 func (w *c36World) check(s *dsim.Sim) *dsim.Violation {
-	if w.done || w.sctx.Err() != nil {
+	if w.done || w.sctx.Err() != nil || w.sending > 0 || s.ParkedCount() > 0 {
 		return nil
 	}
-	last := ""
+	last, lastIdle := "", "I-"
 	for _, x := range w.strm.seq {
 		if x == "E" || x == "R" {
 			last = x
+		} else {
+			lastIdle = x
 		}
+	}
+	if (lastIdle == "I+") != w.truthIdle {
+		return &dsim.Violation{Property: "C36", Rule: "idle-report!=directive-idle-state", Witness: fmt.Sprintf("reported=%v,actual=%v", lastIdle == "I+", w.truthIdle),
+			Detail: fmt.Sprintf("the directive is idle=%v but the last idle report on the stream says %v; responses so far %v", w.truthIdle, lastIdle == "I+", w.strm.seq)}
 	}
 	want := w.liveMatching() > 0
 	got := last == "E"
@@ -271,7 +346,52 @@ func (w *c36World) Final(s *dsim.Sim, stuck bool) *dsim.Violation {
 	return w.check(s)
 }
 
+// c36Groups: valid requests whose naive concatenations collide.
+var c36Groups = [][][2]string{
+	{{"rpc/echo", "v1"}, {"rpc", "echo/v1"}},
+	{{"a", "b/c"}, {"a/b", "c"}},
+	{{"a/", "b"}, {"a", "/b"}, {"a//b", ""}},
+	{{"x\x00y", "z"}, {"x", "\x00yz"}},
+	{{"svc", ""}, {"sv", "c"}},
+}
+
+// roundTrip encodes the requests of one collision group into component IDs one after the
+// other (in a tape-chosen order) and decodes each back.
+func (w *c36World) roundTrip() {
+	s := w.s
+	g := c36Groups[s.Tape.Draw(len(c36Groups), "rt-group")]
+	off := s.Tape.Draw(len(g), "rt-first")
+	for i := range g {
+		pr := g[(i+off)%len(g)]
+		req := bifrost_rpc_access.NewLookupRpcServiceRequest(pr[0], pr[1])
+		if req.Validate() != nil {
+			// single requests over the whole input domain are the pure-function part of the
+			// property; this probe is about valid requests in sequence
+			continue
+		}
+		id, err := req.MarshalComponentID()
+		if err != nil {
+			continue
+		}
+		out := &bifrost_rpc_access.LookupRpcServiceRequest{}
+		if err := out.UnmarshalComponentID(id); err != nil {
+			w.fail(&dsim.Violation{Property: "C36", Rule: "component-id-does-not-decode", Witness: "marshal-then-unmarshal", Detail: fmt.Sprintf("(%q,%q) encoded to %q: %v", pr[0], pr[1], id, err)})
+			return
+		}
+		w.rtN++
+		s.Count("done:component-id-roundtrip")
+		if out.GetServiceId() != pr[0] || out.GetServerId() != pr[1] {
+			w.fail(&dsim.Violation{Property: "C36", Rule: "component-id-decodes-to-other-request", Witness: "after-earlier-encodings",
+				Detail: fmt.Sprintf("(%q,%q) encoded to %q decodes to (%q,%q) (round trip #%d of this run)", pr[0], pr[1], id, out.GetServiceId(), out.GetServerId(), w.rtN)})
+			return
+		}
+	}
+}
+
 func (w *c36World) Teardown(s *dsim.Sim) {
+	if w.truthRel != nil {
+		w.truthRel()
+	}
 	for _, p := range w.provs {
 		if p.live {
 			p.rel()
